@@ -633,6 +633,61 @@ func goConstString(path, name string) string {
 	return *out
 }
 
+// msgConfirmFacts: does MsgConfirm implement UnpackInterfaces; does it have a ValidateBasic that compares its
+// BridgerAddress with the wrapped confirm's bridger (== / != between m.BridgerAddress and a GetBridgerAddress() call
+// or a .BridgerAddress selector)
+func msgConfirmFacts() (unpacks, compares bool) {
+	dir := filepath.Join(repo(), "x/crosschain/types")
+	ents, err := os.ReadDir(dir)
+	if err != nil {
+		die("%v", err)
+	}
+	seenMsgs := false
+	for _, e := range ents {
+		n := e.Name()
+		if e.IsDir() || !strings.HasSuffix(n, ".go") || strings.HasSuffix(n, "_test.go") || strings.HasSuffix(n, ".pb.go") || strings.HasSuffix(n, ".pb.gw.go") {
+			continue
+		}
+		_, f := parseFile(filepath.Join(dir, n))
+		if n == "msgs.go" {
+			seenMsgs = true
+		}
+		if fd := findFunc(f, "MsgConfirm", "UnpackInterfaces"); fd != nil {
+			unpacks = true
+		}
+		if fd := findFunc(f, "MsgConfirm", "ValidateBasic"); fd != nil && fd.Body != nil && len(fd.Recv.List[0].Names) == 1 {
+			recv := fd.Recv.List[0].Names[0].Name
+			isOwn := func(e ast.Expr) bool {
+				x, sname, ok := sel(e)
+				return ok && x == recv && sname == "BridgerAddress"
+			}
+			isInner := func(e ast.Expr) bool {
+				if c, ok := e.(*ast.CallExpr); ok {
+					if s, ok := c.Fun.(*ast.SelectorExpr); ok && s.Sel.Name == "GetBridgerAddress" {
+						return true
+					}
+				}
+				if s, ok := e.(*ast.SelectorExpr); ok && s.Sel.Name == "BridgerAddress" && !isOwn(e) {
+					return true
+				}
+				return false
+			}
+			ast.Inspect(fd.Body, func(n ast.Node) bool {
+				if b, ok := n.(*ast.BinaryExpr); ok && (b.Op == token.NEQ || b.Op == token.EQL) {
+					if (isOwn(b.X) && isInner(b.Y)) || (isOwn(b.Y) && isInner(b.X)) {
+						compares = true
+					}
+				}
+				return true
+			})
+		}
+	}
+	if !seenMsgs {
+		die("x/crosschain/types/msgs.go not found")
+	}
+	return unpacks, compares
+}
+
 // ---------------------------------------------------------------- Solidity side
 
 // stripComments removes // and /* */ comments, leaving string literals intact.
@@ -991,6 +1046,10 @@ func main() {
 	emit("sol", "sarg", solT)
 	fmt.Fprintf(&b, "(* signed-message prefixes *)\nDefinition go_sig_prefix : list Z := %s.\nDefinition tron_sig_prefix : list Z := %s.\nDefinition sol_sig_prefix : list Z := %s.\n",
 		coqBytes(ethPrefix), coqBytes(tronPrefix), coqBytes(solPrefix))
+
+	unpacks, compares := msgConfirmFacts()
+	fmt.Fprintf(&b, "\n(* x/crosschain/types: MsgConfirm implements UnpackInterfaces / has a ValidateBasic comparing the two bridger addresses *)\n")
+	fmt.Fprintf(&b, "Definition msgconfirm_unpacks : bool := %v.\nDefinition msgconfirm_vb_compares_bridger : bool := %v.\n", unpacks, compares)
 
 	out := os.Getenv("VERIF_OUT")
 	if out == "" {
